@@ -263,7 +263,8 @@ def lint_ghost_file(text, name):
             continue
         # exec fn in a ghost file: must be an assumed contract or a whitelisted helper
         before = masked[max(0, m.start() - 200):m.start()]
-        if "external_body" in text[max(0, m.start() - 200):m.start()] or m.group(3) in ("strict_or", "strict_and", "nz"):
+        ctx = text[max(0, m.start() - 400):m.start()]
+        if "external_body" in ctx[-200:] or "external_trait_specification" in ctx or m.group(3) in ("strict_or", "strict_and", "nz"):
             continue
         raise Undecided("ghost file %s defines exec fn %s without external_body (hand-written exec code is not allowed)"
                         % (name, m.group(3)))
